@@ -237,12 +237,11 @@ class CategoricalEnumParallel(ADEVPrimitive):
         (probs_tangent,) = Dual.tree_tangent(dual_tree)
         idxs = jnp.arange(len(probs_primal))
         sub_keys = jax.random.split(key, len(probs_primal))
-        ret_primals, ret_tangents = jax.vmap(kdual)(
-            sub_keys, (idxs,), (jnp.zeros_like(idxs),)
-        )
+        ret_duals = jax.vmap(kdual)(sub_keys, Dual(idxs, jnp.zeros_like(idxs)))
+        ret_primals, ret_tangents = ret_duals.primal, ret_duals.tangent
 
         def _inner(probs, primals):
-            return jnp.sum(jax.nn.softmax(probs) * primals)
+            return jnp.sum(probs * primals)
 
         return Dual(
             *jax.jvp(
